@@ -20,8 +20,16 @@ on the values that can reach it from the selected functions):
   exception raised by a *later* element is raised at creation instead of at consumption.
 * `bool` is a subclass of `int` for `==`, ordering and arithmetic, as in CPython.
 * objects are records `obj cls fields`; `==` on objects is field-wise unless the translator dispatches to a
-  translated `__eq__`.
-* an exception is the *name of its class*; `except C` catches the classes listed under `C` in `subclasses`.
+  translated `__eq__` (it does for instances of the tracked classes); a rich-comparison method answering
+  `NotImplemented` ends in `TypeError` (`<`, …) or in `False`/`True` (`==`/`!=`): the reflected method of a foreign
+  right operand is not tried.
+* `str()` / f-string formatting of a value whose class is not known statically handles numbers, strings and `None`
+  and *refuses* objects (`PyRtUnsupported`), so that an object reaching such a site shows up as a disagreement.
+* `hash(v)` is the constant 0 (faithful where hashes are only compared next to the values themselves).
+* regular expressions: only the pattern texts with a hand-written matcher below (`re_match`, `re_search`).
+* reads of the world outside the translated functions (`sys.version_info`, `platform_tags()`, …) come from an
+  explicit environment table `Env`; a key that is not in the table is `PyRtEnvMissing`.
+* an exception is the *name of its class*; `except C` catches the classes listed under `C` in `bases`.
 -/
 namespace PyRt
 open Py
